@@ -456,18 +456,17 @@ type CG = ConstantGetter<Command, Time, Er>;
 type Pid = CommandPID<SG, Er>;
 
 /// Address of the object a Reference denotes (Rc allocation or raw pointee), type-erased; None for lock variants.
+/// The temporary clone is inspected by reference and then leaked: dropping a `ReferenceUnsafe<dyn ..>` would drag
+/// the recursive drop glue of every vtable candidate into the symbolic execution (strong counts are not asserted on).
 fn target<A: ?Sized>(a: &Reference<A>) -> Option<*const ()> {
-    match a.clone().into_inner() {
-        ReferenceUnsafe::RcRefCell(x) => {
-            let p = Rc::as_ptr(&x) as *const ();
-            // leak this temporary handle instead of dropping it: dropping an Rc<RefCell<dyn ..>> drags the recursive
-            // drop glue of every vtable candidate into the symbolic execution; the strong count is not asserted on
-            core::mem::forget(x);
-            Some(p)
-        }
-        ReferenceUnsafe::Ptr(p) => Some(p as *const ()),
+    let u = a.clone().into_inner();
+    let r = match &u {
+        ReferenceUnsafe::RcRefCell(x) => Some(Rc::as_ptr(x) as *const ()),
+        ReferenceUnsafe::Ptr(p) => Some(*p as *const ()),
         _ => None,
-    }
+    };
+    core::mem::forget(u);
+    r
 }
 fn same_target<A: ?Sized, B: ?Sized>(a: &Reference<A>, b: &Reference<B>) -> bool {
     match (target(a), target(b)) {
@@ -802,3 +801,27 @@ macro_rules! relational_rounds {
 }
 //@ob fn="<PIDWrapper<T,E> as Updatable<E>>::update (relational)" at=src/devices/wrappers.rs:144 bounded="1 round from fresh; gain formula PIDKValues::evaluate replaced by a deterministic uninterpreted mix (kani::stub)" clause="the value the motor receives equals, bit for bit, the output of a stand-alone CommandPID (same gains, initial command, initial state/time) fed the same time/state/command seen at the terminal; nothing is sent when the stand-alone PID has no output"
 relational_rounds!(c20_pid_matches_standalone_1_round, 1);
+//@ob fn="<PIDWrapper<T,E> as Updatable<E>>::update (relational)" at=src/devices/wrappers.rs:144 bounded="2 rounds from fresh; gain formula PIDKValues::evaluate replaced by a deterministic uninterpreted mix (kani::stub); timestamps within +-2^61 (A7)" clause="in each of two consecutive rounds (arbitrary terminal slots, possibly nothing seen) the value the motor receives equals, bit for bit, the output of a stand-alone CommandPID fed the same times/states/commands; the two PIDs' outputs stay bit-equal (velocity commands produce their first output here)"
+relational_rounds!(c20_pid_matches_standalone_2_rounds, 2);
+//@ob fn="<PIDWrapper<T,E> as Updatable<E>>::update (relational)" at=src/devices/wrappers.rs:144 tier=thorough bounded="3 rounds from fresh; gain formula PIDKValues::evaluate replaced by a deterministic uninterpreted mix (kani::stub); timestamps within +-2^61 (A7)" clause="in each of three consecutive rounds the value the motor receives equals, bit for bit, the output of a stand-alone CommandPID fed the same times/states/commands (acceleration commands produce their first output here)"
+relational_rounds!(c20_pid_matches_standalone_3_rounds, 3);
+
+//@ob fn="PIDWrapper::new + <PIDWrapper<T,E> as Updatable<E>>::update" at=src/devices/wrappers.rs:98 cbmc="--max-field-sensitivity-array-size 1024" clause="glue between the two halves of the decomposition: the wrapper produced by the REAL new (Rc-backed shared objects, all arguments symbolic) satisfies the same first-round contract of update for arbitrary terminal slots and motor outcomes"
+#[kani::proof]
+#[kani::unwind(3)]
+fn c20_pid_real_new_then_update() {
+    let t0: Time = kani::any();
+    let s0: State = kani::any();
+    let c0: Command = kani::any();
+    let k: PositionDerivativeDependentPIDKValues = kani::any();
+    let mut w = PIDWrapper::new(Motor::any(), t0, s0, c0, k);
+    fresh_terminal_data(&w);
+    let want = sees(&w.terminal);
+    let pre = held(&w);
+    let res = w.update();
+    pid_round_post(&pre, &want, &w, &res);
+    kani::cover!(want.is_some() && w.inner.n_set == 1 && res.is_ok(), "motor driven");
+    kani::cover!(want.is_none(), "no terminal data");
+    reach!();
+    core::mem::forget(w); // the destructor is not part of the property (recursive drop glue through dyn vtables)
+}
